@@ -474,7 +474,7 @@ package pubsub
 // full is skipped and the miss is traced; subscriptions of other topics get nothing.
 //@ func (*PubSub).notifySubs
 //@   property C02
-//@   requires msg: msg != nil && p.mySubs != nil && (forall t string :: t in p.mySubs ==> p.mySubs[t] != nil)
+//@   requires msg: msg != nil
 //@   noframe
 //@   loop 1 step one-offer-per-subscription: forall s *Subscription :: sent(s.ch) - iter(sent(s.ch)) <= ite(s == f, 1, 0) &&
 //@        (sent(s.ch) > iter(sent(s.ch)) ==> lastsent(s.ch) == msg)
